@@ -18,6 +18,7 @@ structure Leaf where
   unquote : Bytes → Option Bytes       -- strconv.Unquote
   fmtTime : Time → Bytes               -- Time.Format(RFC3339Nano)
   parseTime : Bytes → Option Time      -- time.Parse(RFC3339Nano, ·)
+  timeOK : Time → Bool := fun _ => true  -- the instants the format can write: year 0..9999 in the anchor's own zone
   fmtFloat : Nat → Bytes               -- fmt %v of the float64 with these bits
   parseFloat : Bytes → Option Nat      -- strconv.ParseFloat(·, 64), as bits
 
